@@ -89,6 +89,7 @@ def check(prog: Program, run: Run) -> None:
     _backend(prog, run)
     _strings(prog, run)
     _terminator_width(prog, run)
+    _byte_length_of_value(prog, run)
     from . import c01
     from .common import run_as
     run_as(run, "C01.R7", "C02.R6", lambda r: c01._terminator(prog, r))
@@ -590,6 +591,57 @@ def _stmt_of(fn: ast.AST, x: ast.AST) -> ast.stmt:
     if best is None:
         raise AnalysisError("expression without simple statement")
     return best
+
+
+def _byte_length_of_value(prog: Program, run: Run, R: str = "C02.R5") -> None:
+    """DiagCodedType._minimal_byte_length_of feeds the LEADING-LENGTH field: per base data type it
+    must be the length of the value's ENCODED bytes (len(bytes(v, codec)) / len(v.encode(codec))),
+    with a two-byte code unit codec for A_UNICODE2STRING -- never a count of characters (one
+    character outside the basic plane takes four bytes)."""
+    from ..absint import eval_test
+    from ..cfg import symbolic_paths
+    f = prog.func("DiagCodedType._minimal_byte_length_of")
+    v = f.params()[1]
+    paths = symbolic_paths(f.node)
+    table = {"A_BYTEFIELD": "raw", "A_ASCIISTRING": "8", "A_UTF8STRING": "8",
+             "A_UNICODE2STRING": "16"}
+    for t, want in table.items():
+        env = {"self.base_data_type": f"DataType.{t}"}
+
+        def leaf(x: ast.AST):
+            if isinstance(x, ast.Call) and call_name(x) == "isinstance":
+                return True
+            return None
+        outs = set()
+        for p_ in paths:
+            if not all(eval_test(c, env, leaf) in (None, pol) for c, pol in p_.conds):
+                continue
+            e = p_.retval
+            kind = "?" + (ast.unparse(e) if e is not None else "None")
+            if isinstance(e, ast.Call) and call_name(e) == "len" and len(e.args) == 1:
+                a = e.args[0]
+                if isinstance(a, ast.Name) and a.id == v:
+                    kind = "raw"
+                elif isinstance(a, ast.Call) and a.args and (
+                        (call_name(a) in ("bytes", "bytearray") and len(a.args) == 2 and
+                         ast.unparse(a.args[0]) == v) or
+                        (call_name(a) == "encode" and isinstance(a.func, ast.Attribute) and
+                         ast.unparse(a.func.value) == v)):
+                    codec = a.args[-1]
+                    ctxt = str(codec.value).lower() if isinstance(codec, ast.Constant) else ""
+                    kind = "16" if "16" in ctxt or "ucs" in ctxt else (
+                        "8" if ctxt else "codec")
+            outs.add(kind)
+        if outs == {want} or (want == "8" and outs == {"codec"}):
+            run.ok(R, "DiagCodedType._minimal_byte_length_of",
+                   f"{t}: length of the {'bytes' if want == 'raw' else 'encoded bytes'}", f.loc)
+        else:
+            run.violation(R, "DiagCodedType._minimal_byte_length_of", f"byte-length-{t}",
+                          f"for {t} the byte length is computed as {sorted(outs)}, not as the "
+                          "length of the encoded bytes"
+                          + (" in a 16-bit code unit codec" if want == "16" else "")
+                          + ": the LEADING-LENGTH field disagrees with the bytes that follow "
+                          "for values whose characters are not one code unit each", f.loc)
 
 
 def _terminator_width(prog: Program, run: Run, R: str = "C02.R5") -> None:
